@@ -1,1 +1,2 @@
 pub mod run;
+pub mod srv;
